@@ -52,7 +52,9 @@ type ApplyStage struct {
 	pending map[uint64]*BlockItem
 	// nextSequence is the next sequence number to apply
 	nextSequence uint64
-	inFlight     int
+	// inFlight is 1 while an item has been dequeued in order and is not
+	// finished (applied or skipped) yet, else 0
+	inFlight int
 }
 
 // NewApplyStage creates a new ApplyStage with the given apply function.
@@ -112,6 +114,7 @@ func (s *ApplyStage) ProcessWithStatus(ctx context.Context, item *BlockItem) ([]
 	// Check if this is the next item to apply
 	if item.SequenceNumber() == s.nextSequence {
 		s.nextSequence++
+		s.inFlight++
 		s.mu.Unlock()
 		if verifEnabled {
 			verifTrace("apply_deq", item, 0)
@@ -120,6 +123,7 @@ func (s *ApplyStage) ProcessWithStatus(ctx context.Context, item *BlockItem) ([]
 		if verifEnabled {
 			verifTrace("apply_done", item, 0)
 		}
+		s.finishItem()
 		// Try to apply any buffered items that are now in order
 		buffered := s.applyPending(ctx)
 		// Return the input item plus any buffered items
@@ -160,6 +164,23 @@ func (s *ApplyStage) maybeApply(ctx context.Context, item *BlockItem) {
 	s.applyItem(ctx, item)
 }
 
+// finishItem marks the item dequeued last as done: it was applied or skipped.
+// An item counts as in flight from the moment it is dequeued (nextSequence is
+// advanced in the same critical section), so that it is never unaccounted for.
+func (s *ApplyStage) finishItem() {
+	s.mu.Lock()
+	s.inFlight--
+	s.mu.Unlock()
+}
+
+// processedCount returns the number of sequence numbers the stage is done
+// with: everything below nextSequence except the item currently in flight.
+func (s *ApplyStage) processedCount() uint64 {
+	s.mu.Lock()
+	defer s.mu.Unlock()
+	return s.nextSequence - uint64(s.inFlight) // #nosec G115
+}
+
 // applyItem applies a single item without holding the lock.
 func (s *ApplyStage) applyItem(ctx context.Context, item *BlockItem) {
 	select {
@@ -171,15 +192,6 @@ func (s *ApplyStage) applyItem(ctx context.Context, item *BlockItem) {
 		return
 	default:
 	}
-
-	s.mu.Lock()
-	s.inFlight++
-	s.mu.Unlock()
-	defer func() {
-		s.mu.Lock()
-		s.inFlight--
-		s.mu.Unlock()
-	}()
 
 	start := time.Now()
 	var err error
@@ -215,6 +227,7 @@ func (s *ApplyStage) applyPending(ctx context.Context) []*BlockItem {
 		}
 		delete(s.pending, s.nextSequence)
 		s.nextSequence++
+		s.inFlight++
 		s.mu.Unlock()
 		if verifEnabled {
 			verifTrace("apply_deq", item, 1)
@@ -225,6 +238,7 @@ func (s *ApplyStage) applyPending(ctx context.Context) []*BlockItem {
 		if verifEnabled {
 			verifTrace("apply_done", item, 1)
 		}
+		s.finishItem()
 
 		processed = append(processed, item)
 	}
